@@ -237,6 +237,119 @@ def run(ck):
         outcomes.add((tag, tuple(sorted(expected_on))[:3], got['COUNT']))
         if len(samples) < 4 and len(outcomes) % 97 == 3:
             samples.append({'configuration': label, 'count': got['COUNT']})
-    ck.coverage(states=len(outcomes) + n_pos, transitions=evals, traces_validated_against_impl=validated, evaluations=evals, distinct_nontrivial=len(outcomes),
+    # ---- (3) real builds: the library's own sources, selected as the Makefile.am conditionals select them, must link in every single-feature-off build
+    n_real = real_builds(ck, repo, U, base_lines, q)
+    evals += n_real
+    ck.coverage(states=len(outcomes) + n_pos, real_library_builds=n_real, transitions=evals, traces_validated_against_impl=validated, evaluations=evals, distinct_nontrivial=len(outcomes),
                 rule='model: every table position; implementation: every probe name in every enumerated configuration; distinct = distinct (registry, thread safety, enabled set)',
                 model_positions_checked=n_pos, model_complete=model_ok, configurations_compiled=len(confs), samples=samples or [{'note': 'none'}])
+
+
+def makefile_sources(repo):
+    """[(frozenset(conditions), path)] for every .c file listed in the src Makefile.am files (automake `if X` / `endif` nesting)"""
+    out = []
+    for sub in ('src', 'src/action', 'src/datasource', 'src/filter', 'src/output', 'src/util', 'src/entrypoint', 'lib/inih/src'):
+        mf = os.path.join(repo, sub, 'Makefile.am')
+        if not os.path.exists(mf):
+            continue
+        stack = []
+        target = None
+        for raw in open(mf):
+            l = raw.strip()
+            m = re.match(r'^if\s+(\w+)', l)
+            if m:
+                stack.append(m.group(1))
+                continue
+            if l.startswith('endif'):
+                if stack:
+                    stack.pop()
+                continue
+            m = re.match(r'^(\w+)_SOURCES\s*\+?=', l)
+            if m:
+                target = m.group(1)
+            for f in re.findall(r'([\w./-]+\.c)\b', l):
+                if target and ('test' in target or target.startswith('snoopyctl')):
+                    continue
+                out.append((frozenset(stack), os.path.join(sub, f)))
+    return out
+
+
+def real_builds(ck, repo, U, base_lines, quick):
+    srcs = [(c, f) for c, f in makefile_sources(repo) if os.path.exists(os.path.join(repo, f)) and '/cli/' not in f and 'test' not in os.path.basename(f)]
+    # what ./configure itself allows: forced features cannot be switched off, and "A requires B" rules (configure aborts otherwise)
+    forced, requires = set(), []
+    try:
+        cac0 = open(os.path.join(repo, 'configure.ac')).read()
+        for m in re.finditer(r'SNOOPY_CONFIGURE_(DATASOURCE|FILTER|OUTPUT)_FORCE\(\s*\[(\w+)\]', cac0):
+            forced.add((m.group(1).lower(), m.group(2)))
+        for m in re.finditer(r'enable_datasource_(\w+)"\s*=\s*"xyes"\s*-a\s*"x\$enable_datasource_(\w+)"\s*=\s*"xno"', cac0):
+            requires.append((m.group(1), m.group(2)))
+    except FileNotFoundError:
+        pass
+    confs = [('all-on', {}, True)]
+    for kind, sw in (('datasource', 'DATASOURCE_ENABLED_'), ('filter', 'FILTER_ENABLED_'), ('output', 'OUTPUT_ENABLED_')):
+        for n in U[kind]:
+            if (kind == 'output' and n == 'syslog') or (kind, n) in forced:
+                continue
+            off = {sw + n}
+            if kind == 'datasource':
+                off |= {'DATASOURCE_ENABLED_' + a for a, b in requires if b == n}     # dependants go off with it
+            confs.append(('%s-%s-off' % (kind, n), off, True))
+    confs.append(('thread-safety-off', set(), False))
+    root = os.path.join(ck.workdir, 'real')
+    os.makedirs(root, exist_ok=True)
+    inih = build.inih_flags(repo)
+    derived = {}
+    try:
+        cac = open(os.path.join(repo, 'configure.ac')).read()
+        for m in re.finditer(r'SNOOPY_CONFIGURE_DATASOURCE_ENABLE\(\s*\[(\w+)\]\s*,.*?,\s*\[(INCLUDE_\w+)\]\s*\)', cac):
+            derived.setdefault('DATASOURCE_' + m.group(2), set()).add(m.group(1))
+    except FileNotFoundError:
+        pass
+    known = set(derived) | {'FILTERING_ENABLED', 'CONFIGFILE_ENABLED', 'THREAD_SAFETY_ENABLED'}
+    unknown_conds = set(c for cs, f in srcs for c in cs if c not in known and not re.match(r'(DATASOURCE|FILTER|OUTPUT)_ENABLED_', c))
+    if unknown_conds:
+        ck.assumptions.append('Makefile.am conditionals assumed true in the real-build pass: %s' % sorted(unknown_conds))
+
+    def one(a):
+        i, (label, off, ts) = a
+        d = os.path.join(root, 'r%d' % i)
+        os.makedirs(d, exist_ok=True)
+        on = set()
+        for kind, sw in (('datasource', 'DATASOURCE_ENABLED_'), ('filter', 'FILTER_ENABLED_'), ('output', 'OUTPUT_ENABLED_')):
+            for n in U[kind]:
+                if sw + n not in off and not (kind == 'output' and n == 'syslog'):
+                    on.add(sw + n)
+        conds = set(on) | {'FILTERING_ENABLED', 'CONFIGFILE_ENABLED'} | ({'THREAD_SAFETY_ENABLED'} if ts else set())
+        # derived conditionals (configure.ac: third argument of SNOOPY_CONFIGURE_DATASOURCE_ENABLE): true when any dependent data source is on
+        for cond, deps in derived.items():
+            if any('DATASOURCE_ENABLED_' + x in on for x in deps):
+                conds.add(cond)
+        conds |= unknown_conds          # conditionals this extractor does not understand are assumed true
+        with open(os.path.join(d, 'config.h'), 'w') as f:
+            f.write('\n'.join(base_lines) + '\n#define SNOOPY_CONF_CONFIGFILE_PATH "/x"\n')
+            if ts:
+                f.write('#define SNOOPY_CONF_THREAD_SAFETY_ENABLED 1\n')
+            for n in sorted(on):
+                f.write('#define SNOOPY_CONF_%s 1\n' % n)
+        files = sorted(set(f for c, f in srcs if c <= conds and not f.endswith(('test-cli.c', 'execve-wrapper-test-configfile-env.c'))))
+        objs = []
+        for f in files:
+            o = os.path.join(d, f.replace('/', '__')[:-2] + '.o')
+            r = sh(['gcc', '-O0', '-std=c99', '-fPIC', '-fvisibility=hidden', '-I' + d, '-I' + os.path.join(repo, 'src'), '-I' + repo] + (inih if f.endswith('ini.c') else []) + ['-c', os.path.join(repo, f), '-o', o])
+            if r.returncode:
+                shutil.rmtree(d, ignore_errors=True)
+                return (label, 'compile', f + ': ' + r.stderr.decode()[:600])
+            objs.append(o)
+        r = sh(['gcc', '-shared', '-o', os.path.join(d, 'lib.so')] + objs + ['-Wl,--no-undefined', '-ldl', '-lpthread'])
+        shutil.rmtree(d, ignore_errors=True)
+        if r.returncode:
+            return (label, 'link', r.stderr.decode()[:800])
+        return (label, 'ok', len(files))
+    n = 0
+    for label, status, info in pmap(one, list(enumerate(confs))):
+        n += 1
+        if status != 'ok':
+            und = sorted(set(re.findall(r"undefined reference to `(\w+)'", str(info))))
+            ck.violation('C13:build_%s_fails:%s:%s' % (status, label, ','.join(und)[:80]), {'configuration': label, 'stage': status, 'error': info})
+    return n
